@@ -16,6 +16,27 @@ type c24g struct {
 	nlab  int
 	cmts  bool // sprinkle comments
 	depth int
+	// lev mirrors the parser's exprLev: -1 in the header of an if/for/switch statement (a composite literal of a
+	// plain or qualified type NAME is not allowed there), +1 inside parentheses, brackets, call arguments,
+	// composite-literal braces and function-literal bodies
+	lev int
+}
+
+// in: generate inside a bracketing construct
+func (g *c24g) in(f func() string) string {
+	g.lev++
+	s := f()
+	g.lev--
+	return s
+}
+
+// hdr: generate a control-clause header part
+func (g *c24g) hdr(f func() string) string {
+	old := g.lev
+	g.lev = -1
+	s := f()
+	g.lev = old
+	return s
 }
 
 func (g *c24g) pick(xs ...string) string { return xs[g.r.Intn(len(xs))] }
@@ -42,9 +63,9 @@ func (g *c24g) lit() string {
 	case 2:
 		return g.pick("1i", "1.5i", "0x1p4i", "0b1i")
 	case 3:
-		return g.pick("'a'", "'\\n'", "'\\''", "'\\x41'", "'\\u00e9'", "'\\U0001F600'", "'\\101'", "'日'")
+		return g.pick("'a'", "'\\n'", "'\\''", "'\\x41'", "'\\u00e9'", "'\\U0001F600'", "'\\101'", "'日'", "'\t'")
 	case 4:
-		return g.pick(`""`, `"a b"`, `"\""`, `"\n\t\\"`, `"\x41\u00e9"`, "`raw`", "`r\nw`", `"// not a comment"`, `"/* nor this */"`)
+		return g.pick(`""`, `"a b"`, `"\""`, `"\n\t\\"`, `"\x41\u00e9"`, "`raw`", "`r\nw`", `"// not a comment"`, `"/* nor this */"`, "\"a\tb\"", "`a\tb`")
 	case 5:
 		return g.pick("nil", "true", "false", "iota")
 	default:
@@ -62,7 +83,7 @@ func (g *c24g) typ(d int) string {
 	case 1:
 		return "[]" + g.typ(d-1)
 	case 2:
-		return "[" + g.expr(1) + "]" + g.typ(d-1)
+		return "[" + g.in(func() string { return g.expr(1) }) + "]" + g.typ(d-1)
 	case 3:
 		return "map[" + g.typ(d-1) + "]" + g.typ(d-1)
 	case 4:
@@ -81,6 +102,16 @@ func (g *c24g) typ(d int) string {
 		return "[...]" + g.typ(d-1) // valid only in composite literals; the parsers accept it anywhere a type may be
 	default:
 		return g.pick(c24typeNames...)
+	}
+}
+
+// typDecl: the type of a type declaration: `type a [x[i]]T` is read as a type-parameter list by go1.18+ parsers
+func (g *c24g) typDecl(d int) string {
+	for {
+		t := g.typND(d)
+		if !strings.HasPrefix(t, "[") || strings.HasPrefix(t, "[]") {
+			return t
+		}
 	}
 }
 
@@ -135,6 +166,10 @@ func (g *c24g) signature(d int) string {
 }
 
 func (g *c24g) structType(d int) string {
+	if g.p(6) {
+		// one line, one field, with a tag
+		return "struct{ " + g.id() + " " + g.pick("int", "T", "[]byte", "pkg.Type") + " " + g.pick("`json:\"id\"`", `"tag"`) + " }"
+	}
 	n := g.r.Intn(4)
 	if n == 0 {
 		return "struct{}"
@@ -153,13 +188,17 @@ func (g *c24g) structType(d int) string {
 		if g.p(3) {
 			f += " " + g.pick("`json:\"x\"`", `"tag"`)
 		}
-		if g.cmts && g.p(4) {
-			f += " // field comment"
-		}
 		fs = append(fs, f)
 	}
 	if g.p(3) {
 		return "struct { " + strings.Join(fs, "; ") + " }"
+	}
+	if g.cmts {
+		for i := range fs {
+			if g.p(4) {
+				fs[i] += " // field comment"
+			}
+		}
 	}
 	return "struct {\n" + strings.Join(fs, "\n") + "\n}"
 }
@@ -207,55 +246,104 @@ func (g *c24g) operand(d int) string {
 	}
 	switch g.r.Intn(14) {
 	case 0:
-		return "(" + g.expr(d-1) + ")"
+		return "(" + g.in(func() string { return g.expr(d - 1) }) + ")"
 	case 1:
-		return g.operand(d-1) + "." + g.nbid()
+		return g.base(d-1) + "." + g.nbid()
 	case 2:
-		return g.operand(d-1) + "[" + g.expr(d-1) + "]"
+		return g.operand(d-1) + "[" + g.in(func() string { return g.expr(d - 1) }) + "]"
 	case 3:
-		lo, hi := "", ""
-		if g.p(2) {
-			lo = g.expr(d - 1)
-		}
-		if g.p(2) {
-			hi = g.expr(d - 1)
-		}
-		if g.p(4) {
-			return g.operand(d-1) + "[" + lo + ":" + g.expr(d-1) + ":" + g.expr(d-1) + "]"
-		}
-		return g.operand(d-1) + "[" + lo + ":" + hi + "]"
+		x := g.operand(d - 1)
+		return x + g.in(func() string {
+			lo, hi := "", ""
+			if g.p(2) {
+				lo = g.expr(d - 1)
+			}
+			if g.p(2) {
+				hi = g.expr(d - 1)
+			}
+			if g.p(4) {
+				return "[" + lo + ":" + g.expr(d-1) + ":" + g.expr(d-1) + "]"
+			}
+			return "[" + lo + ":" + hi + "]"
+		})
 	case 4:
-		args := ""
-		if g.p(4) {
-			args = ""
-		} else {
-			args = g.exprList(d-1, 3)
-			if g.p(6) {
-				args += "..."
+		x := g.operand(d - 1)
+		return x + g.in(func() string {
+			args := ""
+			if !g.p(4) {
+				args = g.exprList(d-1, 3)
+				if g.p(6) {
+					args += " ..."
+				}
+				if g.p(8) {
+					args += ","
+				}
 			}
-			if g.p(8) {
-				args += ","
-			}
-		}
-		return g.operand(d-1) + "(" + args + ")"
+			return "(" + args + ")"
+		})
 	case 5:
-		return g.operand(d-1) + ".(" + g.typND(1) + ")"
+		return g.base(d-1) + ".(" + g.typND(1) + ")"
 	case 6:
 		return g.compositeLit(d - 1)
 	case 7:
-		return "func" + g.signature(1) + " " + g.block(d-2)
+		return g.funcLit(d - 1)
 	case 8:
 		// conversion to a type that needs parentheses
-		return g.pick("(*T)", "(func())", "(<-chan int)", "([]byte)", "(chan<- int)") + "(" + g.expr(d-1) + ")"
+		return g.pick("(*T)", "(func())", "(<-chan int)", "([]byte)", "(chan<- int)") + "(" + g.in(func() string { return g.expr(d - 1) }) + ")"
 	case 9:
-		return g.pick("[]byte", "map[string]int", "struct{ x int }", "interface{}", "chan int", "func() int") + "(" + g.expr(d-1) + ")"
+		return g.pick("[]byte", "map[string]int", "struct{ x int }", "interface{}", "chan int", "func() int") + "(" + g.in(func() string { return g.expr(d - 1) }) + ")"
 	default:
 		return g.lit()
 	}
 }
 
+// base: operand of a selector / type assertion: a number directly before '.' would be read as a float
+func (g *c24g) base(d int) string {
+	x := g.operand(d)
+	if len(x) > 0 && (x[0] >= '0' && x[0] <= '9' || x[0] == '.') {
+		return "(" + x + ")"
+	}
+	return x
+}
+
+// funcLit: a function literal; its body is parsed with exprLev+1, whatever surrounds it
+func (g *c24g) funcLit(d int) string {
+	sig := g.signature(1)
+	return "func" + sig + " " + g.in(func() string {
+		if g.p(2) {
+			// a body that holds composite literals of named types in several positions
+			return "{\n" + g.pick("return ", "_ = ", "x := ") + g.namedLit(1) + "\n" + g.stmt(d) + "\n}"
+		}
+		return g.block(d)
+	})
+}
+
+// namedLit: composite literal of a plain or qualified type name (only where exprLev >= 0)
+func (g *c24g) namedLit(d int) string {
+	t := g.pick("T", "pkg.Type", "S", "io.Reader")
+	return t + g.in(func() string {
+		switch g.r.Intn(4) {
+		case 0:
+			return "{}"
+		case 1:
+			return "{" + g.lit() + "}"
+		case 2:
+			return "{" + g.id() + ": " + g.expr(d) + "}"
+		}
+		return "{" + g.expr(d) + ", " + g.expr(d) + "}"
+	})
+}
+
 func (g *c24g) compositeLit(d int) string {
-	t := g.pick("T", "pkg.Type", "[]int", "[...]string", "map[string]T", "struct{ a, b int }", "[2][]T", "[]*T", "[]map[string]int")
+	var t string
+	if g.lev < 0 {
+		// control-clause header: only literal types that are no type names
+		t = g.pick("[]int", "[...]string", "map[string]T", "struct{ a, b int }", "[2][]T", "[]*T", "[]map[string]int", "[]T", "map[pkg.Type]S")
+	} else {
+		t = g.pick("T", "pkg.Type", "[]int", "[...]string", "map[string]T", "struct{ a, b int }", "[2][]T", "[]*T", "[]map[string]int")
+	}
+	g.lev++
+	defer func() { g.lev-- }()
 	n := g.r.Intn(4)
 	var es []string
 	for i := 0; i < n; i++ {
@@ -307,15 +395,21 @@ func (g *c24g) expr(d int) string {
 	}
 }
 
-// expression for a control clause header: composite literals need parentheses there
+// expression for a control clause header (exprLev = -1): function literals, parenthesised / bracketed / argument
+// positions may hold any composite literal, the header level only those whose type is no type name
 func (g *c24g) hexpr(d int) string {
-	for i := 0; i < 20; i++ {
-		e := g.expr(d)
-		if !strings.Contains(e, "{") {
-			return e
+	return g.hdr(func() string {
+		switch g.r.Intn(8) {
+		case 0:
+			// function literal directly in the header, called or compared
+			return g.funcLit(1) + "(" + g.in(func() string { return g.exprList(1, 2) }) + ")" + g.pick("", " == "+g.lit(), ".x > 0")
+		case 1:
+			return "(" + g.in(func() string { return g.namedLit(1) }) + ")" + g.pick(" == "+g.id(), ".x != 0")
+		case 2:
+			return g.id() + "(" + g.in(func() string { return g.namedLit(1) }) + ")"
 		}
-	}
-	return g.id()
+		return g.expr(d)
+	})
 }
 
 func (g *c24g) simpleStmt(d int) string {
@@ -338,13 +432,15 @@ func (g *c24g) simpleStmt(d int) string {
 }
 
 func (g *c24g) hsimple(d int) string {
-	for i := 0; i < 20; i++ {
-		s := g.simpleStmt(d)
-		if !strings.Contains(s, "{") {
-			return s
+	return g.hdr(func() string {
+		switch g.r.Intn(6) {
+		case 0:
+			return g.nbid() + " := " + g.funcLit(1)
+		case 1:
+			return g.nbid() + " := " + g.funcLit(1) + "()"
 		}
-	}
-	return g.id() + "++"
+		return g.simpleStmt(d)
+	})
 }
 
 func (g *c24g) block(d int) string {
@@ -453,7 +549,7 @@ func (g *c24g) stmt1(d int) string {
 		if g.p(2) {
 			s += g.id() + " := "
 		}
-		s += g.operand(1) + ".(type) {\n"
+		s += g.hdr(func() string { return g.base(1) }) + ".(type) {\n"
 		n := g.r.Intn(4)
 		for i := 0; i < n; i++ {
 			if g.p(5) {
@@ -510,7 +606,7 @@ func (g *c24g) stmt1(d int) string {
 	case 13:
 		return "const " + g.id() + " = " + g.expr(1)
 	case 14:
-		return "type " + g.nbid() + " " + g.typND(d-1)
+		return "type " + g.nbid() + " " + g.typDecl(d-1)
 	case 15:
 		return "var (\n" + g.id() + " = " + g.expr(1) + "\n" + g.id() + " " + g.typND(1) + " = " + g.expr(1) + "\n)"
 	case 16:
@@ -556,11 +652,11 @@ func (g *c24g) decl(d int) string {
 	case 3:
 		return doc + "var (\n" + g.id() + ", " + g.id() + " " + g.typND(1) + "\n" + g.id() + " = " + g.expr(d) + "\n)"
 	case 4:
-		return doc + "type " + g.nbid() + " " + g.typND(d+1)
+		return doc + "type " + g.nbid() + " " + g.typDecl(d+1)
 	case 5:
 		return doc + "type " + g.nbid() + " = " + g.typND(d)
 	case 6:
-		return doc + "type (\n" + g.nbid() + " " + g.typND(d) + "\n" + g.nbid() + " = " + g.typND(1) + "\n)"
+		return doc + "type (\n" + g.nbid() + " " + g.typDecl(d) + "\n" + g.nbid() + " = " + g.typND(1) + "\n)"
 	case 7:
 		recv := g.pick("(t T)", "(t *T)", "(T)", "(*T)", "(_ T)")
 		return doc + "func " + recv + " " + g.nbid() + g.signature(1) + " " + g.block(d)
